@@ -283,6 +283,11 @@ class FaultPlan:
             if f.get("done") or f["task"] != task.name or f["at"] != "line" or f["k"] != idx:
                 continue
             f["done"] = True
+            if f["kind"] == "exc" and (frame.f_back is None or
+                                       frame.f_back.f_code.co_filename != frame.f_code.co_filename):
+                # the outermost frame of the worker function (its try:/except: lines) is not a
+                # place where an ordinary exception can originate: not fired
+                continue
             self.fired.append(dict(kind=f["kind"], task=task.name, site="L%d" % frame.f_lineno,
                                    k=idx, at="line", t=task.kernel.now))
             return self._act(f)
